@@ -13,5 +13,7 @@ GenInit ==
     /\ \A s \in Specs : PrintT(<<"SPEC", s.k, s.n, s.t, DateOf(s).y, DateOf(s).m, DateOf(s).d>>)
     /\ \A i \in 0 .. (NowDays - 1) : PrintT(<<"DAY", i, Cal[i].y, Cal[i].m, Cal[i].d, WD(i), MonthEnd(i)>>)
     /\ \A t \in NowTimes : PrintT(<<"TOD", t>>)
+    /\ \A sh \in Shapes : PrintT(<<"SHAPE", sh.boot, sh.day, sh.dom, sh.dow, sh.time, WellFormed(sh)>>)
+    /\ PrintT(<<"SHAPEVALUES", 2, 15, Cal[DayIndex(2024, 2, 29)].y, Cal[DayIndex(2024, 2, 29)].m, Cal[DayIndex(2024, 2, 29)].d, ShapeNoon>>)
 GenSpec == GenInit /\ [][UNCHANGED x]_x
 =============================================================================
